@@ -484,6 +484,8 @@ def _cmp(op, a, b):
     lead_atom = min(dd, key=lambda t: t.hid)
     lead = dd[lead_atom]
     pn = scale(d, 1 / abs(lead))
+    if op == "le" and (pn if lead > 0 else -pn).hid in NONZERO:
+        op = "lt"  # p != 0 is among the hypotheses: 0 <= p  <=>  0 < p
     if op == "eq":
         r = Sym("eq", ((pn if lead > 0 else -pn), ZERO), BOOL)
     elif lead > 0:
